@@ -5,7 +5,7 @@ from harness import lts_check
 from vlib import paths
 ID = 'C04'
 RUNNER = 'LTS'
-COQ_ROOTS = ['Props/C04.v', 'Props/C04_hist.v', 'Props/E2E.v', 'GenProps/Session_consts.v', 'GenProps/C04_consts.v']
+COQ_ROOTS = ['Props/C04.v', 'Props/C04_hist.v', 'Props/C04_end.v', 'Props/E2E.v', 'GenProps/Session_consts.v', 'GenProps/C04_consts.v']
 RULE = ('A case is (scenario, schedule): client programs (sync/async requests, take_notification, await-disconnect), a scripted '
         'server (replies in any order, duplicates, unknown/missing ids, notifications, unknown messages, EOF/error) and the list of '
         'scheduler decisions at every synchronisation point (lock acquire, event set/wait, queue put/get, connected read, '
@@ -16,13 +16,19 @@ RULE = ('A case is (scenario, schedule): client programs (sync/async requests, t
         'failed connect attempts of every kind, close(), the manager\'s clean-up, in any order; number of outstanding requests; kind of '
         'loss) against real in-process SSH / TLS / Unix peers; real_backlog = (transport, transport slow or not writable, number of '
         'pipelined asynchronous requests x threads queued unsent, synchronous callers, loss): every call returns or raises within its '
-        'timeout, every request accepted before the loss is failed with a transport error.')
+        'timeout, every request accepted before the loss is failed with a transport error; real_later = (transport, device profile, '
+        'capabilities of the server hello, framing, outstanding requests of different operations, loss) x EVERY operation of the Manager '
+        'API incl. the profile\'s vendor operations and the lock context manager, synchronous and asynchronous: a call that is a request '
+        'on the live twin is refused with a transport error on the ended session; real_apps = (transport, 0..3 application listeners '
+        'with errbacks that raise / are slow / unregister themselves or everybody / register others / re-enter, forced position relative '
+        'to the reply listener in the listener set, outstanding synchronous and pipelined requests, loss incl. an application callback '
+        'that raises): every outstanding request still fails promptly with a transport error.')
 ASSUMES = ['CPython executes the code between two instrumented synchronisation points atomically with respect to the other managed threads (GIL + cooperative scheduler)',
            'uuid4 message-ids are unique (fresh-id oracle of the LTS; a trace violating it is rejected by the model)',
            'threading.Event/Lock/queue.Queue/selectors behave as the instrumented stand-ins (tools/harness/sched.py)']
 TRUSTED = ['modelled, not verified: threading, queue, selectors, the in-memory transport; inbound framing is composed with the LTS (Props/E2E.v, byte-level replay of the recorded reads by tools/harness/e2e_check.py; the concrete classifier of message texts Model/Classify.v is a scanner, the theorems hold for every classifier), outbound framing is C02',
            'tools/harness/sched.py, lts.py, lts_check.py (scheduler, effect log -> label mapping, oracles)',
-           'tools/harness/real_end.py, real_hist.py, real_backlog.py, c12_peers.py (stand-in sockets, in-process SSH/TLS/Unix peers, wall-clock bounds: a failing case is repeated once before it is reported)']
+           'tools/harness/real_end.py, real_hist.py, real_backlog.py, real_later.py (incl. its table of valid calls per operation, validated on a live twin session in every case), real_apps.py, c12_peers.py (stand-in sockets, in-process SSH/TLS/Unix peers, wall-clock bounds: a failing case is repeated once before it is reported)']
 
 def _corpus():
     out = []
@@ -35,19 +41,26 @@ def _corpus():
 
 # ---- direct families on the real transport classes (no scheduler): histories of one session object, backlog of unsent requests
 def _families():
-    from harness import real_hist, real_backlog
-    return {'real_hist': real_hist, 'real_backlog': real_backlog}
+    from harness import real_hist, real_backlog, real_later, real_apps
+    return {'real_hist': real_hist, 'real_backlog': real_backlog, 'real_later': real_later, 'real_apps': real_apps}
+FAMILIES = ('real_hist', 'real_backlog', 'real_later', 'real_apps')
 
 def _direct_cases(tier, rng):
     fam = _families()
     H, B = fam['real_hist'], fam['real_backlog']
+    L, A = fam['real_later'], fam['real_apps']
     if tier == 'quick':
         hs = H.core_cases() + [H.gen_case(rng, kind) for kind in H.KINDS + (rng.choice(H.KINDS),)]
         bs = B.core_cases() + [B.gen_case(rng) for _ in range(2)]
+        ls = L.core_cases() + [L.gen_case(rng)]
+        as_ = A.core_cases() + [A.gen_case(rng) for _ in range(3)]
     else:
         hs = H.all_cases() + [H.gen_case(rng) for _ in range(60)]
         bs = B.all_cases() + [B.gen_case(rng) for _ in range(30)]
-    return [('real_hist', c) for c in hs] + [('real_backlog', c) for c in bs]
+        ls = L.all_cases() + [L.gen_case(rng) for _ in range(20)]
+        as_ = A.all_cases() + [A.gen_case(rng) for _ in range(60)]
+    return ([('real_hist', c) for c in hs] + [('real_backlog', c) for c in bs] + [('real_later', c) for c in ls] +
+            [('real_apps', c) for c in as_])
 
 def _judge(name, case):
     c = {k: v for k, v in case.items() if k != 'check' and not k.startswith('_')}
@@ -57,13 +70,25 @@ def _judge(name, case):
 def run_direct(ctx):
     H = _families()['real_hist']
     hmodel = H.hist_model(ctx)
-    tie = []
+    tie, tie_end = [], []
+    fam = _families()
     for name, case in _direct_cases(ctx.tier, ctx.rng):
         f, rec, info = _judge(name, case)
         if name == 'real_hist' and hmodel is not None:
             tie.append((rec, info.get('_flags')))
+        if name in ('real_later', 'real_apps') and hmodel is not None and info.get('_tie'):
+            tie_end.append((name, rec, info['_tie']))
         ctx.count(rec, key=[name, rec])
-        ctx.hist(name, '%s/%s' % (rec['kind'], rec.get('writable') or len(rec.get('steps', []))))
+        if name == 'real_later':
+            ctx.hist(name, '%s/%s' % (rec['kind'], rec.get('profile', 'default')))
+            for row in (info.get('_tie') or {}).get('later', []): ctx.hist('later_op', '%s:%d' % (row[0], row[2]))
+        elif name == 'real_apps':
+            ctx.hist(name, '%s/%d listeners/%s' % (rec['kind'], len(rec.get('apps', [])), rec.get('loss')))
+            for a in rec.get('apps', []): ctx.hist('app_errback', a.get('err', 'ok'))
+            if info.get('_order') is not None:
+                ctx.hist('bcast_order', ''.join('R' if x == 'R' else 'a' for x in info['_order']))
+        else:
+            ctx.hist(name, '%s/%s' % (rec['kind'], rec.get('writable') or len(rec.get('steps', []))))
         if name == 'real_hist':
             for st in rec['steps']: ctx.hist('hist_step', '/'.join(st))
         if f and f.startswith('rig:'):
@@ -79,6 +104,30 @@ def run_direct(ctx):
                 ctx.disagree(rec, 'Model/SessionHist.v predicts the flags of the session object', d, 'flags of the real object along the history',
                              theorem='C04_hist_fresh_start')
 
+    # Model/SessionEnd.v: the broadcast over the whole listener set; requests on the ended object
+    calls, where = [], []
+    for name, rec, t in tie_end:
+        if name == 'real_apps' and t.get('snapshot') is not None:
+            calls.append(fam[name].model_call(rec, t)); where.append((name, rec, t, 1))
+        elif name == 'real_later' and t.get('later'):
+            cs = fam[name].model_calls(rec, t); calls += cs; where.append((name, rec, t, len(cs)))
+    if calls:
+        outs = hmodel.batch(calls)
+        i = 0
+        for name, rec, t, n in where:
+            mo = outs[i:i + n]; i += n
+            ctx.traces += 1
+            if name == 'real_apps':
+                d = fam[name].compare(rec, t, mo[0])
+                if fam[name].discriminates(mo[0]): ctx.hist('bcast_one_try_would_miss_reply_listener', 'yes')
+                th = 'C04_bcast_visits_all'
+            else:
+                d = fam[name].compare(rec, t, mo)
+                th = 'C04_later_refused'
+            if d:
+                ctx.disagree(rec, 'Model/SessionEnd.v predicts the broadcast / the outcome class of every request on the ended session', d,
+                             'the real session object', theorem=th)
+
 def run(ctx):
     q = ctx.tier == 'quick'
     run_direct(ctx)
@@ -93,7 +142,7 @@ def search(ctx, seeds):
 
 def reproduce(finding):
     w = finding['witness']
-    if w.get('check') in ('real_hist', 'real_backlog'):
+    if w.get('check') in FAMILIES:
         return _judge(w['check'], w)[0]
     w['spec']['clients'] = [[tuple(op) for op in ops] for ops in w['spec']['clients']]
     w['spec']['server'] = [tuple(a) for a in w['spec']['server']]
@@ -102,12 +151,12 @@ def reproduce(finding):
 
 def replay(doc):
     c = doc['case']
-    if c.get('check') in ('real_hist', 'real_backlog'):
+    if c.get('check') in FAMILIES:
         f, rec, info = _judge(c['check'], c)
         print('case      :', rec)
         print('expected  : property %s holds (every call returns or raises within its timeout; outstanding requests fail with a '
               'transport error promptly; the session reports itself disconnected; later requests are refused)' % ID)
-        print('actual    :', f or 'holds', info or '')
+        print('actual    :', f or 'holds', {k: v for k, v in info.items() if k not in ('_tie', '_flags') and v is not None} or '')
         return f is None
     if c.get('check') == 'real_end':
         f = lts_check.real_end_case()
